@@ -693,8 +693,9 @@ func (r *Renderer) renderText(w util.BufWriter, source []byte, node ast.Node, en
 						// an empty text node (it only carries a line break): nothing to join with
 						_ = w.WriteByte('\n')
 					}
-				} else if sibling != nil {
-					// the next sibling is not a text node (emphasis, link, code span, ...):
+				} else {
+					// the next sibling is not a text node (emphasis, link, code span, ...) or
+					// there is none (the text ends its link or emphasis):
 					// there is no wide character to join with, keep the line break
 					_ = w.WriteByte('\n')
 				}
